@@ -17,6 +17,27 @@ CLAIMED = {
   note=COMMON_NOTE + "Spec/Offside.lean is my declarative reading of the offside rule; Python str.strip whitespace table; "
        "CommonFormatter.split only.",
   design="§5 C05", technique="Lean 4 proof (refinement of stack machine to declarative spec) + differential correspondence"),
+ "C06": dict(
+  text="Lean theorems over the model of compile_acl_text/_find_acl_matches/_select_match/apply_acl (any ACL in the rule grammar, "
+       "any tree): result is an order-preserving sub-tree; idempotence; a path survives iff every row along it passes at the rules "
+       "reached along it; strict mode raises iff some row at a covered parent is unmatched and names the first one; everything "
+       "below a deletable '~ %global' survives. Merge-monotonicity is FALSE of the code: three kernel-checked witnesses, recorded "
+       "as known findings F06a-c. Tie: apply_acl vs Annet.Acl.applyAcl on 6.4k (quick) generated ACL/tree cases incl. merged "
+       "generator ACLs, fatal and exclusive modes; oracle: the property's clauses on the real functions.",
+  note=COMMON_NOTE + "CPython re not modelled (rows matched by Model/Pattern.lean, tied by C07); valkit/tabparser executed; "
+       "ACL rows inside the rule grammar, no ignore rules, no annotations.",
+  design="§5 C06", technique="Lean 4 proof (mutual induction over the tree) + differential correspondence"),
+ "C07": dict(
+  text="Lean theorems (any pattern of literal words/*/trailing ~, any row): the regex built by compile_row_regexp (modelled by "
+       "matchToks, incl. its source text) matches exactly when the row starts with the corresponding words at word boundaries; "
+       "the key has one entry per placeholder; * binds one word; prefix semantics; never across a word boundary; the removal "
+       "template is negation word + words with the key substituted and is matched back by the same rule with the same key; "
+       "negation is an involution (explicit guard); (?i) extends case-sensitive matches. Tie: real compiled regexes vs the model "
+       "on ~225k pairs (exhaustive small alphabet + every shipped rule line with synthesised/near-miss rows); all compiled "
+       "shipped rulebooks checked to use the one compiler.",
+  note=COMMON_NOTE + "CPython re is a modelled subset: rows outside the grammar (*/re/, ~/re/, <name>, metacharacters; 218 of "
+       "1540 shipped lines) are decided by re and only counted.",
+  design="§5 C07", technique="Lean 4 proof (induction over token lists) + differential correspondence, exhaustive on a small alphabet"),
 }
 REASONS = {}
 def main():
